@@ -21,6 +21,7 @@ from vf.rigs.world import fault_at
 from vf.runner import Ob
 
 LEVEL = "other"
+TECHNIQUE = ('symx as case-splitter over (reachable file x damage x position x API) on the real read paths; exhaustive within the finite bound (C parsers and SHA-256 run concretely)')
 EXPLANATION = (
     "symx/z3 exploration of (reachable file x damage class x position) for every read API and option on both real "
     "backends; each outcome must be an exception or exactly the undamaged answer; exhaustive within the finite "
